@@ -102,6 +102,10 @@ ALT = {"family": "File Fam", "upem": 1000, "ascender": 900, "descender": -200, "
        "color_format": "glyf", "keep_glyph_names": False, "clipbox_quantization": 16, "bitmap_resolution": 32, "transform": "translate(-50, 0)"}
 
 
+# a flag given with a falsy value (0 / False) must still override a truthy file value
+FALSY = [("linegap", 0, 120), ("version_minor", 0, 7), ("keep_glyph_names", False, True), ("descender", 0, -200), ("width", 0, 1500)]
+
+
 def toml_text(options, srcs):
     L = []
     for k, v in options.items():
@@ -161,6 +165,8 @@ def suite_matrix(ctx, res, thorough):
         jobs.append((f"{k}={v}:flag", {k: v}, None))
         jobs.append((f"{k}={v}:file", {}, {k: v}))
         jobs.append((f"{k}={v}:both", {k: v}, {k: ALT[k]}))
+    for k, v, filev in (FALSY if thorough else ctx.rng.sample(FALSY, 3)):
+        jobs.append((f"{k}={v}:falsy-flag-over-file", {k: v}, {k: filev}))
     with ThreadPoolExecutor(max_workers=8) as ex:
         results = list(ex.map(one_build, jobs))
     base = next(r for r in results if r["name"] == "base")
